@@ -136,6 +136,17 @@ CLAIMED = {
    note="SHA-256 is the parameter H; collision-freedom is a hypothesis of two theorems, preimage resistance a cryptographic assumption outside Lean; "
         "custom sub_func classes (PublicID/PairWiseID with their own salt) are not driven.",
    technique="Lean 4 proof (equational reasoning with an injective-hash hypothesis) + endpoint correspondence on login sequences", ref="6 C18"),
+ "C07": dict(
+   text="Lean theorems, for every configuration, scope-claim list, claims-parameter object and user record: the restriction for a release point "
+        "mentions only keys from base claims, always-add claims, scope-derived claims (only with add_claims_by_scope) and the request's claims "
+        "for that point (restriction_upper_bound, with dict.update semantics); every released attribute is named by the restriction, equals the "
+        "stored attribute and matched its individual request (release_upper_bound, released_is_permitted); value/values requests only remove "
+        "(claims_match_monotone); nothing for a missing attribute. Tie: flows (code and id_token-only) on one long-lived provider over "
+        "per-point configurations x three clients x random scopes x claims objects; released attribute set at the four points compared with the "
+        "model; oracle: subset of the permitted bound, values equal stored, and the same flow on a fresh provider releases the same set.",
+   note="The per-client resolution (_client_claims) and scopes_to_claims are computed by the harness from the configuration it wrote; history "
+        "independence is an oracle (aged vs fresh provider) here and a separation property in C20; invalid-token / audience clauses are C03/C04.",
+   technique="Lean 4 proof (set-algebra upper bounds over association lists) + endpoint correspondence at the four release points", ref="6 C07"),
 }
 NOT_YET = {}
 ALL = [f"C{i:02d}" for i in range(1, 21)]
